@@ -106,3 +106,26 @@ def run(ctx):
         ctx.oblige(bool(copies4) and not lim and not bounded, "C29.4", "%s:bounded-copy" % fn.split("::")[-1],
                    "the backup copies only part of the file (%s): the log copy no longer contains every transaction whose pages are in the page copy, "
                    "or cuts a rewritten log inside its only transaction" % ([c.name.split("::")[-1] for c in lim] + bounded), cb.file)
+
+    # ---- clause 5: restore does not judge a completed backup by begin-time metadata --------------------------------
+    # BackupFileInfo.size / checksum are recorded once, in begin_backup, from the live files; they are not refreshed when the manifest is
+    # marked Completed, and the log legitimately shrinks during a backup (close-time rewrite).  A restore that refuses or truncates files
+    # according to those fields rejects consistent, completed backups.  Restore may use the file names, the is_wal flag and the status only.
+    import json as _json
+    ctx.rule("C29.5", "restore_from_backup reads only name / is_wal / status of the manifest's file entries (begin-time size and checksum cannot refuse a Completed backup)")
+    BEGIN_TIME = ("size", "checksum")
+    used = set()
+    for blk in rb.blocks:
+        for st in blk["s"]:
+            if st[0] != "a":
+                continue
+            s = _json.dumps(st)
+            if "backup::BackupFileInfo" not in s:
+                continue
+            for f_ in BEGIN_TIME:
+                if '"%s"' % f_ in s:
+                    used.add(f_)
+    ctx.instance("C29.5", "restore_from_backup reads begin-time fields of BackupFileInfo: %s" % (sorted(used) or "none"))
+    ctx.oblige(not used, "C29.5", "restore_from_backup:uses-begin-time-metadata",
+               "restore consults %s, which begin_backup recorded before the copy and nothing refreshes: a completed backup taken across a close-time log "
+               "rewrite (the log shrinks) is refused" % sorted(used), rb.file)
